@@ -15,6 +15,7 @@ import (
 	authtypes "github.com/cosmos/cosmos-sdk/x/auth/types"
 	vestingtypes "github.com/cosmos/cosmos-sdk/x/auth/vesting/types"
 	"github.com/cosmos/cosmos-sdk/x/authz"
+	banktypes "github.com/cosmos/cosmos-sdk/x/bank/types"
 	ethcrypto "github.com/ethereum/go-ethereum/crypto"
 
 	vauthkeeper "github.com/EscanBE/evermint/v12/x/vauth/keeper"
@@ -312,13 +313,40 @@ func c16RunRoute(c c16Route) (fs []ev.Finding, outcome string) {
 			m = &e
 		}
 		msgs = []sdk.Msg{m}
-	case c.Routing == "grant":
+	case strings.HasPrefix(c.Routing, "sib-exec"), strings.HasPrefix(c.Routing, "send-exec"), strings.HasPrefix(c.Routing, "in-exec"):
+		// the creation message nested in MsgExec (depth d) that is NOT the first element of its message list:
+		// sib-exec: [MsgExec{send}, exec^d(inner)]; send-exec: [send, exec^d(inner)]; in-exec: MsgExec{[MsgExec{send}, exec^(d-1)(inner)]}
+		depth := int(c.Routing[len(c.Routing)-1] - '0')
+		send := &banktypes.MsgSend{FromAddress: cw.R.Bech(), ToAddress: w.Wallets[0].Bech(), Amount: sdk.NewCoins(sdk.NewCoin(world.Denom, sdkmath.NewInt(1)))}
+		wrap := func(m sdk.Msg, n int) sdk.Msg {
+			for i := 0; i < n; i++ {
+				e := authz.NewMsgExec(cw.R.Acc(), []sdk.Msg{m})
+				m = &e
+			}
+			return m
+		}
+		benign := wrap(send, 1)
+		switch {
+		case strings.HasPrefix(c.Routing, "sib-exec"):
+			msgs = []sdk.Msg{benign, wrap(inner, depth)}
+		case strings.HasPrefix(c.Routing, "send-exec"):
+			msgs = []sdk.Msg{send, wrap(inner, depth)}
+		default:
+			e := authz.NewMsgExec(cw.R.Acc(), []sdk.Msg{benign, wrap(inner, depth-1)})
+			msgs = []sdk.Msg{&e}
+		}
+	case c.Routing == "grant", c.Routing == "sib-grant":
 		any, err := codectypes.NewAnyWithValue(authz.NewGenericAuthorization(vestingURL(c.Msg)))
 		if err != nil {
 			panic(err)
 		}
 		exp := world.BlockTime(1000)
 		msgs = []sdk.Msg{&authz.MsgGrant{Granter: cw.R.Bech(), Grantee: w.Wallets[0].Bech(), Grant: authz.Grant{Authorization: any, Expiration: &exp}}}
+		if c.Routing == "sib-grant" { // the grant listed after a harmless exec
+			send := &banktypes.MsgSend{FromAddress: cw.R.Bech(), ToAddress: w.Wallets[0].Bech(), Amount: sdk.NewCoins(sdk.NewCoin(world.Denom, sdkmath.NewInt(1)))}
+			e := authz.NewMsgExec(cw.R.Acc(), []sdk.Msg{send})
+			msgs = []sdk.Msg{&e, msgs[0]}
+		}
 	default:
 		panic(c.Routing)
 	}
@@ -339,7 +367,7 @@ func c16RunRoute(c c16Route) (fs []ev.Finding, outcome string) {
 	if isVesting && c.Routing != "top" {
 		fail("vesting-creation-never-through-exec-or-grant", desc)
 	}
-	if c.Routing == "grant" {
+	if c.Routing == "grant" || c.Routing == "sib-grant" {
 		if r.Code == 0 {
 			fail("grants-for-vesting-creation-refused", desc)
 		}
@@ -402,7 +430,7 @@ func runC16(replay string) int {
 	for _, proven := range [][]string{nil, {"A"}, {"A", "B"}} {
 		for _, msg := range []string{"vesting", "periodic", "permanent"} {
 			for _, target := range []string{"A", "B"} {
-				for _, r := range []string{"top", "exec1", "exec2", "exec3", "exec4", "exec5", "grant"} {
+				for _, r := range []string{"top", "exec1", "exec2", "exec3", "exec4", "exec5", "grant", "sib-exec1", "sib-exec2", "send-exec1", "send-exec2", "in-exec1", "in-exec2", "sib-grant"} {
 					routes = append(routes, c16Route{Proven: proven, Msg: msg, Target: target, Routing: r})
 				}
 			}
@@ -497,7 +525,7 @@ func runC16(replay string) int {
 	run.Coverage["traces_validated_against_impl"] = int(run.Counter("transitions"))
 	run.Coverage["exhaustive"] = true
 	run.Coverage["max_depth"] = maxDepth
-	run.Coverage["rule"] = fmt.Sprintf("part 1: BFS over branch states with the %d-op submission alphabet (submitter {rich, exactly-the-fee, one-short} × account {A, B, submitter itself} × 10 signature variants: A's, B's, upper-case hex, 64/66 bytes, empty, garbage, (r,n−s,v⊕1) malleated, signed other message, v+27) to depth %d or fixpoint, full store hash as state identity, compared with a 3-field reference (proven set, balances, supply) after every transition; part 2: %d complete-transaction cases (proven set {∅,{A},{A,B}} × 3 vesting-creation messages × target {A,B} × routing {top level, MsgExec nested 1..5 with grantee = granter, MsgGrant}) through FinalizeBlock", len(alpha), maxDepth, len(routes))
+	run.Coverage["rule"] = fmt.Sprintf("part 1: BFS over branch states with the %d-op submission alphabet (submitter {rich, exactly-the-fee, one-short} × account {A, B, submitter itself} × 10 signature variants: A's, B's, upper-case hex, 64/66 bytes, empty, garbage, (r,n−s,v⊕1) malleated, signed other message, v+27) to depth %d or fixpoint, full store hash as state identity, compared with a 3-field reference (proven set, balances, supply) after every transition; part 2: %d complete-transaction cases (proven set {∅,{A},{A,B}} × 3 vesting-creation messages × target {A,B} × routing {top level, MsgExec nested 1..5 with grantee = granter, MsgGrant, the nested message / the grant listed after a harmless MsgExec or MsgSend, or after a harmless MsgExec inside an outer MsgExec}) through FinalizeBlock", len(alpha), maxDepth, len(routes))
 	return run.Finish()
 }
 
